@@ -11,7 +11,7 @@ use std::hash::{Hash, Hasher};
 type Model = Vec<(String, RefValue)>;
 
 #[derive(Clone, Copy, Debug, PartialEq)]
-enum Op { Push(u8, u8), PushFront(u8, u8), Insert(u8, u8, u8), InsertFront(u8, u8, u8), Remove(u8, u8), RemoveUnique(u8), RemoveAt(u8), Sort, Clone, FromVec, Extend(u8, u8), SetAll(u8, u8) }
+enum Op { Push(u8, u8), PushFront(u8, u8), Insert(u8, u8, u8), InsertFront(u8, u8, u8), Remove(u8, u8), RemoveUnique(u8), RemoveAt(u8), Sort, Clone, FromVec, Extend(u8, u8), SetAll(u8, u8), GetOrInsert(u8, u8), GetMutOrInsert(u8, u8), SetUnique(u8, u8) }
 
 const KEYS: [&str; 2] = ["a", "b"];
 fn val(i: u8) -> RefValue { RefValue::Num(if i == 0 { "1".into() } else { "2".into() }) }
@@ -19,7 +19,7 @@ fn val(i: u8) -> RefValue { RefValue::Num(if i == 0 { "1".into() } else { "2".in
 fn all_ops() -> Vec<Op> {
     let mut v = vec![Op::Sort, Op::Clone, Op::FromVec];
     for k in 0..2u8 { for x in 0..2u8 {
-        v.push(Op::Push(k, x)); v.push(Op::PushFront(k, x)); v.push(Op::Extend(k, x)); v.push(Op::SetAll(k, x));
+        v.push(Op::Push(k, x)); v.push(Op::PushFront(k, x)); v.push(Op::Extend(k, x)); v.push(Op::SetAll(k, x)); v.push(Op::GetOrInsert(k, x)); v.push(Op::GetMutOrInsert(k, x)); v.push(Op::SetUnique(k, x));
         for m in 0..3u8 { v.push(Op::Insert(k, x, m)); v.push(Op::InsertFront(k, x, m)); }
     } for m in 0..3u8 { v.push(Op::Remove(k, m)); } v.push(Op::RemoveUnique(k)); }
     for i in 0..4u8 { v.push(Op::RemoveAt(i)); }
@@ -43,6 +43,33 @@ fn apply(op: Op, obj: &mut Object, m: &mut Model) -> Option<String> {
         Op::PushFront(k, x) => { let fresh = !m.iter().any(|(k2, _)| k2 == KEYS[k as usize]); let got = obj.push_front(KEYS[k as usize].into(), to_real(&val(x))); m.insert(0, (KEYS[k as usize].into(), val(x))); if got != fresh { return Some(format!("push_front returned {} expected {}", got, fresh)); } }
         Op::Extend(k, x) => { obj.extend(vec![(json_syntax::object::Key::from(KEYS[k as usize]), to_real(&val(x))), (json_syntax::object::Key::from(KEYS[(1 - k) as usize]), to_real(&val(x)))]); m.push((KEYS[k as usize].into(), val(x))); m.push((KEYS[(1 - k) as usize].into(), val(x))); }
         Op::SetAll(k, x) => { for v in obj.get_mut(KEYS[k as usize]) { *v = to_real(&val(x)); } for e in m.iter_mut() { if e.0 == KEYS[k as usize] { e.1 = val(x); } } }
+        Op::GetOrInsert(k, x) => {
+            // first value of the key, or one entry pushed at the end with the value the closure returns
+            let key = KEYS[k as usize];
+            let pos = m.iter().position(|(k2, _)| k2 == key);
+            let got = from_real(obj.get_or_insert_with(key, || to_real(&val(x))));
+            let want = match pos { Some(i) => m[i].1.clone(), None => { m.push((key.into(), val(x))); val(x) } };
+            if got != want { return Some(format!("get_or_insert_with({}) returned {:?} expected {:?}", key, got, want)); }
+        }
+        Op::GetMutOrInsert(k, x) => {
+            // same, and the returned reference is written through: exactly that value changes
+            let key = KEYS[k as usize];
+            let pos = match m.iter().position(|(k2, _)| k2 == key) { Some(i) => i, None => { m.push((key.into(), val(1 - x))); m.len() - 1 } };
+            let r = obj.get_mut_or_insert_with(key, || to_real(&val(1 - x)));
+            if from_real(r) != m[pos].1 { return Some(format!("get_mut_or_insert_with({}) handed out {:?} expected {:?}", key, from_real(r), m[pos].1)); }
+            *r = to_real(&val(x));
+            m[pos].1 = val(x);
+        }
+        Op::SetUnique(k, x) => {
+            let key = KEYS[k as usize];
+            let idx: Vec<usize> = m.iter().enumerate().filter(|(_, (k2, _))| k2 == key).map(|(i, _)| i).collect();
+            match (obj.get_unique_mut(key), idx.len()) {
+                (Ok(None), 0) => {}
+                (Ok(Some(v)), 1) => { if from_real(v) != m[idx[0]].1 { return Some("get_unique_mut value".into()); } *v = to_real(&val(x)); m[idx[0]].1 = val(x); }
+                (Err(d), n) if n >= 2 => { if entry_ref(d.0) != m[idx[0]] || entry_ref(d.1) != m[idx[1]] { return Some("get_unique_mut duplicates".into()); } }
+                _ => return Some(format!("get_unique_mut({}) wrong", key)),
+            }
+        }
         Op::Insert(k, x, mode) => {
             let key = KEYS[k as usize];
             let first = m.iter().position(|(k2, _)| k2 == key);
@@ -122,7 +149,7 @@ fn histories(prop: &str, thorough: bool, seed: u64, rep: &mut Report) {
     let ops = all_ops();
     let depth = if thorough { 4 } else { 3 };
     rep.bounds = vec![("operations".into(), ops.len().to_string()), ("history_len".into(), depth.to_string()), ("keys".into(), "2".into()), ("values".into(), "2".into())];
-    rep.rule = "every history of at most N operations (push, push_front, insert/insert_front/remove with the returned iterator dropped untouched, advanced once, or drained, remove_unique, remove_at, sort, clone, from_vec, extend, in-place value mutation) from the empty object and from a 3-entry object with a duplicate key; after every step the entries, the operation result and every key query are compared with the plain-list model; non-trivial = history of length >= 2".into();
+    rep.rule = "every history of at most N operations (push, push_front, insert/insert_front/remove with the returned iterator dropped untouched, advanced once, or drained, remove_unique, remove_at, sort, clone, from_vec, extend, in-place value mutation through get_mut / get_unique_mut / get_mut_or_insert_with, get_or_insert_with) from the empty object and from a 3-entry object with a duplicate key; after every step the entries, the operation result and every key query are compared with the plain-list model; non-trivial = history of length >= 2".into();
     rep.checks.push(format!("{}: object histories vs the list model", prop));
     let mut by_content: std::collections::HashMap<Model, (Object, String)> = std::collections::HashMap::new();
     let seeds: Vec<Vec<Op>> = vec![vec![], vec![Op::Push(0, 0), Op::Push(1, 0), Op::Push(0, 1)]];
@@ -153,7 +180,7 @@ fn histories(prop: &str, thorough: bool, seed: u64, rep: &mut Report) {
                     None => { by_content.insert(m.clone(), (obj.clone(), format!("{:?}+{:?}", start, h))); }
                 }
             }
-            if h.len() < depth { for op in &ops { if h.len() + 1 == depth && !thorough && matches!(op, Op::Clone | Op::FromVec | Op::SetAll(..)) { continue; } let mut h2 = h.clone(); h2.push(*op); stack.push(h2); } }
+            if h.len() < depth { for op in &ops { if h.len() + 1 == depth && !thorough && matches!(op, Op::Clone | Op::FromVec | Op::SetAll(..) | Op::SetUnique(..)) { continue; } let mut h2 = h.clone(); h2.push(*op); stack.push(h2); } }
         }
     }
     if prop == "C06" {
